@@ -1,7 +1,9 @@
 import BytomModel.Model.Entry
+import BytomModel.Model.Merkle
 import BytomModel.Model.CodecDump
 import BytomModel.Drv.Util
-/- driver mode c03: `tx <text>` → `id=<txid> in=[input ids] mux=<id> res=[result ids] sig=[sighashes]`
+/- driver mode c03: `mroot <n> <seed>` → merkle root of n synthetic leaf ids (model recursion + SHA3);
+   `tx <text>` → `id=<txid> in=[input ids] mux=<id> res=[result ids] sig=[sighashes]`
    (`panic` when MapTx panics, `err` when the text does not decode);
    `hdr <text>` → `hash=<block hash>`; all computed by the MODEL with the executable SHA3-256 -/
 namespace BytomModel.Drv.C03
@@ -23,8 +25,24 @@ def hdrLine (text : Bytes) : String :=
   | .err _ => "err"
   | .panic => "panic"
 
+def be64 (n : Nat) : Bytes := (le64 n).reverse
+
+/-- the synthetic leaf id `bc.Hash{V0: seed, V1: i, V2: 0, V3: 0xC03}` -/
+def leafId (seed i : Nat) : Bytes := be64 seed ++ be64 i ++ be64 0 ++ be64 0xC03
+
+def sha3Fns : BytomModel.Merkle.HashFns Bytes Bytes where
+  emptyH := H []
+  leafH x := H (0x00 :: x)
+  nodeH a b := H (0x01 :: (a ++ b))
+
+def mrootLine (n seed : Nat) : String :=
+  hx (BytomModel.Merkle.merkleRoot sha3Fns ((List.range n).map (leafId seed)))
+
 def step (_ : Unit) (line : String) : Unit × String :=
   let out := match words line with
+    | ["mroot", n, seed] => match n.toNat?, seed.toNat? with
+      | some n, some s => mrootLine n s
+      | _, _ => "bad-op"
     | ["tx", a] => txLine (textOf a)
     | ["hdr", a] => hdrLine (textOf a)
     | _ => "bad-op"
